@@ -14,6 +14,13 @@ def chk_sf(inp):
     step, nb = inp.get("step"), inp.get("nb")
     if R < 1 or C < 1 or R > 200 or C > 200:
         return
+    # phase held in an integer type (fixed-point storage): the ramp of slope a still gives a^2 (j step)^2, also where a^2 j^2 does not fit the type
+    ramp = numpy.outer(numpy.arange(16) * 20, numpy.ones(4))
+    for dt, scale in (("int16", 10), ("int32", 3000), ("uint16", 10), ("uint32", 5000), ("int64", 1), ("float32", 1)):
+        got = aotools.calculate_structure_function((ramp * scale).astype(dt), 4)
+        want = (20. * scale) ** 2 * numpy.arange(4) ** 2
+        if got.shape != want.shape or not numpy.allclose(got, want, rtol=1e-6):
+            return bad("calculate_structure_function of a %s ramp of slope %g is not a^2 j^2" % (dt, 20. * scale), numpy.asarray(got).tolist(), want.tolist())
     rng = numpy.random.default_rng(R * 31 + C)
     for kind in ("random", "ramp", "spike"):
         if kind == "random":
